@@ -331,6 +331,7 @@ def run(ctx: RuleContext, p: Program) -> None:
     ctx.try_rule(round4.rule_find_sem, p, 'FIND-SEM', 3 if ctx.tier == 'quick' else 4)
     ctx.try_rule(round4.rule_claim_sem, p, 'CLAIM-SEM', 3 if ctx.tier == 'quick' else 4)
     ctx.try_rule(round4.rule_id_cmp, p, 'ID-CMP')
+    ctx.try_rule(rule_postlex_block, p, 'POSTLEX-BLOCK')
     from . import presence
     ctx.try_rule(presence.rule_presence_truth, p, 'PRESENCE-TRUTH')
     from . import claimorder
@@ -338,3 +339,94 @@ def run(ctx: RuleContext, p: Program) -> None:
     ctx.not_decided += ['attribution rules for each layout (blank lines, indentation classes)', 'idempotence and '
                         'claim/unclaim restoration as runtime facts', 'that default parsing leaves no comment unowned']
     ctx.assumptions += ['a comment is owned iff it is stored in a _leading/_trailing slot or in Repeated.items']
+
+
+# ====================================================================== POSTLEX-BLOCK (added after seeded round 6)
+def rule_postlex_block(ctx: RuleContext, p: Program, rid: str) -> None:
+    """PostLex.process interpreted over streams of line-start tokens: where indented blocks open and close"""
+    import itertools
+    import re
+    from . import possem
+    from .tokenstore import TS
+    ctx.rule(rid, 'PostLex.process, interpreted over every stream of up to 3 line-start tokens (each with / without a line break, an indent, a '
+                  'comment) interleaved with content tokens: an indented block is opened (INDENT_MARK) at the first indented line after an '
+                  'unindented one -- whether that line holds content or only a comment -- and closed (DEDENT_MARK) at the next unindented '
+                  'line or at the end; marks alternate and balance.  An indented comment line is part of the block of the directive above it: '
+                  'that is what makes it a standalone entry of that directive (indentation class) instead of a comment of a neighbour')
+    m = p.module('parser')
+    cls = p.cls('PostLex', 'parser')
+    fn = p.method(cls, 'process', inherited=False)
+    ts = TS(p)
+    consts: dict[str, Any] = {}
+    for st in cls.node.body:
+        if isinstance(st, ast.Assign) and len(st.targets) == 1 and isinstance(st.targets[0], ast.Name):
+            v = st.value
+            if isinstance(v, ast.Constant) and isinstance(v.value, str):
+                consts[st.targets[0].id] = v.value
+            elif isinstance(v, ast.Call) and norm(v.func) == 're.compile' and v.args and isinstance(v.args[0], ast.Constant):
+                flags = 0
+                for a in v.args[1:]:
+                    for part in norm(a).split('|'):
+                        flags |= getattr(re, part.strip().split('.')[-1], 0)
+                consts[st.targets[0].id] = re.compile(v.args[0].value, flags)
+    nic = next((v for k, v in consts.items() if isinstance(v, str) and v == '_NEWLINE_INDENT_COMMENT'), None)
+    if nic is None:
+        raise AnalysisError('POSTLEX-BLOCK: the line-start token type constant was not found in PostLex')
+
+    class Interp(possem.PosInterp):
+        tag = 'POSTLEX-BLOCK'
+
+        def expr(self, e: Any, env: dict) -> Any:                 # type: ignore[override]
+            if isinstance(e, ast.Call):
+                fname = norm(e.func)
+                if fname.endswith('Token.new_borrow_pos') and len(e.args) == 3:
+                    a = [self.expr(x, env) for x in e.args]
+                    return possem.Obj('LarkToken', {'type': a[0], 'value': a[1]}, f'{a[0]}')
+                if fname in ('lark.Token', 'Token') and len(e.args) >= 2:
+                    a = [self.expr(x, env) for x in e.args]
+                    return possem.Obj('LarkToken', {'type': a[0], 'value': a[1]}, f'{a[0]}')
+            return super().expr(e, env)
+
+    def line(nl: bool, ind: bool, com: bool) -> str:
+        return ('\n' if nl else '') + ('  ' if ind else '') + ('; c' if com else '')
+
+    shapes = [(nl, ind, com) for nl in (False, True) for ind in (False, True) for com in (False, True) if nl or ind or com]
+    problem = None
+    n = 0
+    for k in range(1, 4):
+        for lines in itertools.product(shapes, repeat=k):
+            for content_after in itertools.product((False, True), repeat=k):
+                stream: list = []
+                for (nl, ind, com), ca in zip(lines, content_after):
+                    stream.append(possem.Obj('LarkToken', {'type': nic, 'value': line(nl, ind, com)}, 'line-start'))
+                    if ca and not com:
+                        stream.append(possem.Obj('LarkToken', {'type': 'ACCOUNT', 'value': 'Assets:A'}, 'content'))
+                me = possem.Obj('PostLex', dict(consts), 'postlex')
+                it = Interp(ts, [], module=m)
+                n += 1
+                try:
+                    out = it.call_function(fn, [me, possem._It(stream)], {})
+                except possem.Raised as ex:
+                    problem = problem or f'raises {ex}'
+                    continue
+                marks = [t.f['type'] for t in out if isinstance(t, possem.Obj) and t.f.get('type') in ('INDENT_MARK', 'DEDENT_MARK')]
+                # reference: the indentation of the lines alone decides
+                want: list[str] = []
+                ind_state = False
+                for (nl, ind, com) in lines:
+                    if not ind and ind_state:
+                        ind_state = False
+                        want.append('DEDENT_MARK')
+                    if ind and not ind_state:
+                        ind_state = True
+                        want.append('INDENT_MARK')
+                if ind_state:
+                    want.append('DEDENT_MARK')
+                if marks != want and problem is None:
+                    show = ' / '.join(('newline ' if nl else '') + ('indent ' if ind else '') + ('comment' if com else ('content' if ca else '')) for (nl, ind, com), ca in zip(lines, content_after))
+                    problem = (f'for the lines [{show}] the block marks are {marks}, the indentation of the lines gives {want}: a comment-only '
+                               f'indented line does not open (or an unindented line does not close) the block it belongs to, so the comment is '
+                               f'attributed across indentation classes')
+    if n < 500:
+        raise AnalysisError(f'POSTLEX-BLOCK: only {n} streams evaluated')
+    ctx.check(problem is None, rid, 'parser:PostLex.process', 'blocks follow indentation', problem or '', fn.where, note=f'{n} token streams')
